@@ -143,11 +143,14 @@ def w_host_list(exe, domains, underscore, src, with_email=True):
                                      {"domain": core.b2s(d), "hex": d.hex()}, {"source": src}))
     if with_email:
         doms = [d for d in domains if b"@" not in d and d[:1] != b"["]
-        recs, crashes = driver.run_lines_resilient(exe, [driver.A_line(b"x@" + d, sections=9 | 4, tlds=1) for d in doms])
+        # the domain verdict must not depend on the local part in front of it (1, 4, 64 bytes, quoted, non-ASCII)
+        LPS = [b"x", b"user", b"a" * 64, b'"q.r"', b"first.last", "é".encode()]
+        lps = [LPS[i % len(LPS)] for i in range(len(doms))]
+        recs, crashes = driver.run_lines_resilient(exe, [driver.A_line(l + b"@" + d, sections=9 | 4, tlds=1) for l, d in zip(lps, doms)])
         for idx, sig, err in crashes:
             d = doms[idx] if idx >= 0 else b""
             part["viol"].append(("crash/%s" % sig, {"address": core.b2s(b"x@" + d)}, {"stderr": err[-1500:]}))
-        for d, r in zip(doms, recs):
+        for d, r, lp_ in zip(doms, recs, lps):
             if r is None:
                 continue
             exp = OD.host_accepts(d, underscore)
@@ -155,12 +158,14 @@ def w_host_list(exe, domains, underscore, src, with_email=True):
                 h = r["hl"].get(str(mi * 2))
                 if h is None or h[0] < 0:
                     continue
+                if m != "6531" and max(lp_) >= 0x80:
+                    continue            # a non-ASCII local part is (rightly) refused by the ASCII modes
                 acc = bool(h[0])
                 cnt["email.%s.%s" % (m, "accept" if acc else "reject")] += 1
                 if m != "6531":
                     if acc != exp:
                         part["viol"].append(("%s/email/%s" % (m, "accepts-invalid" if acc else "rejects-valid"),
-                                             {"mode": m, "address": core.b2s(b"x@" + d)},
+                                             {"mode": m, "address": core.b2s(lp_ + b"@" + d)},
                                              {"ret": h[0], "errcode": h[1], "reference": exp,
                                               "why": OD.host_reason(d, underscore), "source": src}))
                 elif acc:
@@ -213,7 +218,7 @@ def ip_pool(tier, rng):
               "1.2.3.4]", "[1.2.3.4", "1.2.3.4:5", "127.0.0.1", "1234.1.1.1", "1.2.3.4/8"):
         out.add(q.encode())
     # IPv6 shapes
-    tails = [None, b"1.2.3.4", b"192.0.2.128", b"0.1.2.3", b"1.2.3.256", b"1.2.3", b"1.2.3.4.", b"01.2.3.4", b"1.2.3.0004"]
+    tails = [None, b"1.2.3.4", b"192.0.2.128", b"192.168.100.200", b"255.255.255.255", b"0.1.2.3", b"1.2.3.256", b"1.2.3", b"1.2.3.4.", b"01.2.3.4", b"1.2.3.0004"]
     widths = [0, 1, 4, 5] if tier == "quick" else [0, 1, 2, 3, 4, 5]
     for nb in range(0, 9):
         for na in range(-1, 9):        # -1: no '::'
@@ -292,12 +297,14 @@ def family_of(addr_body):
 def w_literal(exe, domains, src):
     part = new_part()
     cnt = part["counters"]
-    lines = [driver.A_line(b"x@" + d, sections=7, tlds=3) for d in domains]
+    # the literal's verdict and family must not depend on the local part: shapes with ':', brackets, '@', dots, quotes
+    LPS = [b"x", b'"a:b"', b'"[x]"', b'"q@[1.2.3.4]"', b"a.b", b'"IPv6:"', b"user"]
+    lines = [driver.A_line(LPS[i % len(LPS)] + b"@" + d, sections=7, tlds=3) for i, d in enumerate(domains)]
     recs, crashes = driver.run_lines_resilient(exe, lines)
     for idx, sig, err in crashes:
         d = domains[idx] if idx >= 0 else b""
         part["viol"].append(("crash/%s" % sig, {"address": core.b2s(b"x@" + d)}, {"stderr": err[-1500:]}))
-    for d, r in zip(domains, recs):
+    for di, (d, r) in enumerate(zip(domains, recs)):
         if r is None:
             continue
         # public per-part validators on the bare address text: is_ipaddr is by definition is_ipv6 for texts with a colon, else is_ipv4
@@ -325,7 +332,7 @@ def w_literal(exe, domains, src):
                         v4, v6, dom, rc = a[0], a[1], a[2], a[3]
                         acc = rc == 0
                     cnt["%s.%s" % (lvl, "accept" if acc else "reject")] += 1
-                    wit = {"address": core.b2s(b"x@" + d), "mode": m}
+                    wit = {"address": core.b2s(LPS[di % len(LPS)] + b"@" + d), "mode": m}
                     det = {"level": lvl, "tld_check": t, "rc": rc, "flags": [v4, v6, dom], "reference": verdict, "why": why,
                            "source": src}
                     if verdict == OD.MUST_REJECT and acc:
